@@ -499,6 +499,9 @@ func (e *Engine) callContract(st *State, instr ssa.Instruction, fn *ssa.Function
 		env.old = old
 		env.bindResults(fn, rets)
 		for _, en := range c.Ensures {
+			if strings.HasPrefix(en.Label, "local-") {
+				continue // names locals of the callee: meaningful only in its own proof
+			}
 			st.assume(e.evalBool(env, en))
 		}
 		k(st, resultVal(fn.Signature, rets))
@@ -540,6 +543,9 @@ func (e *Engine) pureContractApp(st *State, fn *ssa.Function, c *Contract, args 
 		st.assume(e.rangeOf(r.T, r.Ty))
 	}
 	for _, en := range c.Ensures {
+		if strings.HasPrefix(en.Label, "local-") {
+			continue // names locals of the callee: meaningful only in its own proof
+		}
 		st.assume(e.evalBool(env, en))
 	}
 	if c.Trusted || fn.Blocks == nil {
@@ -826,6 +832,9 @@ func (e *Engine) callIfaceContract(st *State, instr ssa.Instruction, m *types.Fu
 			}
 		}
 		for _, en := range c.Ensures {
+			if strings.HasPrefix(en.Label, "local-") {
+				continue // names locals of the callee: meaningful only in its own proof
+			}
 			st.assume(e.evalBool(env, en))
 		}
 		k(st, resultVal(sig, rets))
